@@ -22,36 +22,36 @@ import (
 // real receiver whose destination root sits in a sandbox full of canaries (C05).
 type confineScn struct {
 	ID      int    `json:"id"`
-	Name    string `json:"name"` // hostile name ("/ABS/" prefix = absolute path into the outside region)
-	T       string `json:"t"`    // reg dir lnk fifo sock chr
+	Name    string `json:"name"`  // hostile name ("/ABS/" prefix = absolute path into the outside region)
+	T       string `json:"t"`     // reg dir lnk fifo sock chr
 	SendS   bool   `json:"sends"` // the list first sends the symlink s -> ../outside
 	Escapes bool   `json:"escapes"`
 	Recv    string `json:"recv"`
 	Delete  bool   `json:"delete"`
-	Sub     string `json:"sub"`   // daemon: destination argument (after module-name stripping); "" = module root
+	Sub     string `json:"sub"`    // daemon: destination argument (after module-name stripping); "" = module root
 	Benign  bool   `json:"benign"` // the list is harmless (sub-argument scenarios)
 	More    []struct {
 		Name string `json:"name"`
 		T    string `json:"t"`
 	} `json:"more"` // further hostile entries (random lists)
-	Class   string `json:"class"`
+	Class string `json:"class"`
 }
 
 type confineObs struct {
-	ID       int      `json:"id"`
-	Class    string   `json:"class"`
-	Name     string   `json:"name"`
-	T        string   `json:"t"`
-	Recv     string   `json:"recv"`
-	Sub      string   `json:"sub"`
-	Escapes  bool     `json:"escapes"`
-	Result   string   `json:"result"`
-	Err      string   `json:"err"`
-	Changed  []string `json:"changed"`  // outside paths whose state differs after the session
-	Events   []string `json:"events"`   // inotify events on the outside region during the session
-	Leak     bool     `json:"leak"`     // the generator sent checksums of an outside file
-	Reqs     int      `json:"reqs"`
-	Scn      json.RawMessage `json:"scn"`
+	ID      int             `json:"id"`
+	Class   string          `json:"class"`
+	Name    string          `json:"name"`
+	T       string          `json:"t"`
+	Recv    string          `json:"recv"`
+	Sub     string          `json:"sub"`
+	Escapes bool            `json:"escapes"`
+	Result  string          `json:"result"`
+	Err     string          `json:"err"`
+	Changed []string        `json:"changed"` // outside paths whose state differs after the session
+	Events  []string        `json:"events"`  // inotify events on the outside region during the session
+	Leak    bool            `json:"leak"`    // the generator sent checksums of an outside file
+	Reqs    int             `json:"reqs"`
+	Scn     json.RawMessage `json:"scn"`
 }
 
 func init() { handlers["confine"] = confineHandler }
